@@ -1,5 +1,19 @@
 (** M-FMT (closed commands): forward simulation — the statement scanner of LexModel.v reads a
-    closed command ([ClosedModel.scan_closed]) back as exactly one statement, whatever follows. *)
+    closed command ([ClosedModel.scan_closed]) back as exactly one statement, whatever follows.
+
+    Main results (end of the file):
+    - [stmt_gap_closed]: gap, closed command, delimiter, newline, anything  =>  [stmt] returns the
+      command as one statement (text [stmt_text], offset [total + |gap|]) and stops at the newline;
+    - [stmt_gap_eof]: a gap alone => [stmt] returns EOF;
+    - [scan_loop_closed] / [scan_closed_default]: the loop of [Scan] over a list of (gap, command).
+    Extra hypothesis w.r.t. the plain [Gap] premise: [gap_delim_ok d] (a delimiter that starts
+    with "--" contains no newline) — without it a comment line followed by more text can be read
+    as the delimiter.
+
+    Structure: tail-independence of every look-ahead the scanner makes (the walker [cw] only sees
+    [cmd ++ d ++ "\n"]), the sub-scanners against [qloop]/[dloop]/[cskip], [stmt_iter] cut into
+    its successive tests ([ck_*]), one [stmt_iter] step per branch of [cw] ([cw_sim]), the gap
+    ([gap_loop]), [emit]. *)
 From Coq Require Import List NArith ZArith Bool Arith Lia.
 From Atlas Require Import Base.Bytes Lex.LexModel Lex.LexProofs Lex.ClosedModel.
 From Coq Require Import ZifyBool ZifyNat ZifyN.
@@ -195,6 +209,15 @@ Proof.
   - exfalso. destruct y as [|p]; [discriminate|].
     repeat (destruct p; try discriminate).
 Qed.
+
+(** [lia] without the boolean / option / result equations of the context (they can be huge) *)
+Ltac slia :=
+  repeat match goal with
+  | H : @eq bool _ _ |- _ => clear H
+  | H : @eq (option _) _ _ |- _ => clear H
+  | H : @eq (res _) _ _ |- _ => clear H
+  | H : @eq (prod _ _) _ _ |- _ => clear H
+  end; lia.
 
 (** split syntactic conjunctions only (never unfolds a definition) *)
 Ltac splits := repeat match goal with |- _ /\ _ => split end.
@@ -1043,4 +1066,700 @@ Proof.
     rewrite Hk. rewrite app_assoc. apply In_59_fol; exact Hd.
 Qed.
 
+(** ** the walker against the [Scan:] loop *)
+Lemma cw_S f start prev depth n l : cw o d (S f) start prev depth n l =
+    match n with
+    | O => (depth =? 0)%nat
+    | S _ =>
+      let '(r, wz) := decode_rune l in
+      let w := Z.to_nat wz in
+      if (w =? 0)%nat || (n <? w)%nat then false else
+      let n1 := (n - w)%nat in
+      let l1 := skipn w l in
+      let pv := byte_before w l in
+      if N.eqb r 40 then cw o d f false pv (S depth) n1 l1
+      else if N.eqb r 41 then
+        match depth with O => false | S d' => cw o d f false pv d' n1 l1 end
+      else if is_quote r then
+        match qloop f r (BackslashEscapes o) n1 l1 with
+        | Some (n2, l2) => cw o d f false (Some r) depth n2 l2
+        | None => false
+        end
+      else if start && (w =? 1)%nat && has_prefix_ci l W_DELIMITER then false
+      else if (depth =? 0)%nat && has_prefix l d then false
+      else if MatchDollarQuote o && N.eqb r 36 && is_some (re_dollar_quote l) then
+        match re_dollar_quote l with
+        | Some m =>
+          if (n <? m)%nat then false else
+          match dloop f (firstn m l) (n - m)%nat (skipn m l) with
+          | Some (n2, l2) => cw o d f false (Some 36%N) depth n2 l2
+          | None => false
+          end
+        | None => false
+        end
+      else if N.eqb r 35 && HashComments o then
+        if start then false else
+        match cskip NL n1 l1 with
+        | Some (n2, l2) => cw o d f false (Some 10%N) depth n2 l2
+        | None => false
+        end
+      else if N.eqb r 45 && rune_is (Some (fst (decode_rune l1))) 45 then
+        if start then false else
+        match n1 with
+        | O => false
+        | S n1' =>
+          match cskip NL n1' (skipn 1 l1) with
+          | Some (n2, l2) => cw o d f false (Some 10%N) depth n2 l2
+          | None => false
+          end
+        end
+      else if N.eqb r 47 && rune_is (Some (fst (decode_rune l1))) 42 then
+        if start then false else
+        match n1 with
+        | O => false
+        | S n1' =>
+          match cskip [42%N; 47%N] n1' (skipn 1 l1) with
+          | Some (n2, l2) => cw o d f false (Some 47%N) depth n2 l2
+          | None => false
+          end
+        end
+      else if begin_live o d &&
+              (begin_hint (skipn (w - 1) l) ||
+               begin_hint (match w, prev with
+                           | 1%nat, Some p => p :: l
+                           | 1%nat, None => l
+                           | _, _ => skipn (w - 2) l
+                           end))
+      then false
+      else cw o d f false pv depth n1 l1
+    end.
+Proof. reflexivity. Qed.
+
+Lemma byte_before_seg seg rest1 : seg <> [] ->
+  exists x p, seg = x ++ [p] /\ byte_before (length seg) ((seg ++ rest1) ++ fol) = Some p.
+Proof.
+  intros Hne. exists (removelast seg), (last seg 0%N).
+  pose proof (app_removelast_last 0%N Hne) as E. split; [exact E|].
+  unfold byte_before. rewrite E at 1 2. rewrite app_length. simpl length.
+  replace (length (removelast seg) + 1 - 1)%nat with (length (removelast seg)) by lia.
+  rewrite <- !app_assoc. rewrite nth_error_app2 by lia. rewrite Nat.sub_diag. reflexivity.
+Qed.
+
+Lemma conclude_eq (P : bytes -> Prop) (a b c x y : bytes) : a ++ b = x ++ y -> P (a ++ b ++ c) -> P (x ++ y ++ c).
+Proof. intros E. rewrite !app_assoc, E. auto. Qed.
+
+(** the delimiter after the command: [break Scan] *)
+Lemma final_step F s pre opos : At s pre ([] ++ fol) -> pre <> [] ->
+  exists s1, At s1 (pre ++ d) [10%N] /\ stmt_iter o nested F s 0 opos = Ok (Break s1 (pre ++ d)).
+Proof.
+  intros HA Hne.
+  destruct (delim_ok_inv d Hdok) as [Hasc (d0 & d' & Hd & H40 & H41 & Hq)].
+  assert (d0 < 128)%N as Hd0 by (apply Hasc; rewrite Hd; left; reflexivity).
+  assert (decode_rune ([] ++ fol) = (d0, 1)) as D.
+  { rewrite Hd. cbn [app]. unfold decode_rune. replace (d0 <? 128)%N with true by lia. reflexivity. }
+  rewrite stmt_iter_eq, (next_at s pre [] d0 1 HA D). cbn [bind].
+  set (s1 := addPos (set_width s 1) 1).
+  destruct HA as (I & P & Tt & Dl & Et & Sr).
+  assert (pos s1 = zlen pre + 1) as P1 by (unfold s1; simpl; lia).
+  assert (1 <= zlen pre) as Hp1 by (destruct pre; [congruence|rewrite zlen_cons; pose proof (zlen_nonneg pre); lia]).
+  unfold iter_some.
+  replace (N.eqb d0 40) with false by lia. replace (N.eqb d0 41) with false by lia.
+  change (N.eqb d0 39 || N.eqb d0 34 || N.eqb d0 96) with (is_quote d0). rewrite Hq.
+  unfold iter_rest.
+  rewrite ck_delimcmd_skip by lia.
+  rewrite ck_go_skip by exact Hgo.
+  rewrite (ck_delim_hit s1 _ (fol ++ tail)).
+  - set (s2 := addPos s1 (zlen (delim s1) - width s1)).
+    assert (input s2 = (pre ++ d) ++ [10%N] ++ tail) as I2.
+    { unfold s2, s1. simpl. rewrite I. cbn [app]. rewrite <- !app_assoc. reflexivity. }
+    assert (pos s2 = zlen (pre ++ d)) as P2.
+    { unfold s2, s1. simpl. rewrite P, Dl, zlen_app. lia. }
+    rewrite I2, (slice_to_app _ _ _ P2). cbn [bind]. exists s2. split; [|reflexivity].
+    unfold At. splits; auto.
+    unfold s2, s1. simpl. rewrite Tt, Dl, zlen_app. lia.
+  - unfold s1. simpl. rewrite I. cbn [app]. apply slice_from_app. lia.
+  - unfold s1. simpl. rewrite Dl. apply has_prefix_app. exists ([10%N] ++ tail). rewrite <- !app_assoc. reflexivity.
+Qed.
+
+Lemma cw_sim : forall f start prev depth n l, cw o d f start prev depth n l = true ->
+  forall rest pre s opos F, l = rest ++ fol -> n = length rest -> At s pre l -> PV start prev pre ->
+    pre ++ rest <> [] -> (n + 1 <= F)%nat ->
+  exists s1, At s1 (pre ++ rest ++ d) [10%N] /\
+    stmt_loop o nested F s (Z.of_nat depth) opos =
+    (do es <- emit o s1 (pre ++ rest ++ d); Ok (snd es, Some (fst es))).
+Proof.
+  induction f as [|f IH]; intros start prev depth n l H rest pre s opos F Hl Hn HA HP Hne HF; [discriminate|].
+  rewrite cw_S in H. destruct F as [|F]; [slia|]. rewrite stmt_loop_S.
+  destruct n as [|n'].
+  - (* the delimiter *)
+    destruct rest; [|discriminate]. apply Nat.eqb_eq in H. subst depth l. rewrite app_nil_r in Hne.
+    destruct (final_step F s pre opos HA Hne) as (s1 & HA1 & Hit).
+    change (Z.of_nat 0) with 0. rewrite Hit. cbn [bind]. exists s1. split; [exact HA1|reflexivity].
+  - destruct (decode_rune l) as [r wz] eqn:D. cbv beta iota zeta in H.
+    destruct ((Z.to_nat wz =? 0)%nat || (S n' <? Z.to_nat wz)%nat) eqn:Echk; [discriminate|].
+    subst l. rewrite Hn in Echk.
+    destruct (step_at s pre rest r wz HA D Echk)
+      as (seg & rest1 & s1 & Hr & Hls & Hzs & Hw1 & Hsk & Hn1 & Hnx & Hwd & HA1 & Hasc).
+    rewrite Hsk, Hn, Hn1 in H. rewrite <- Hls in H.
+    assert (seg <> []) as Hsne by (intros ->; simpl in Hzs; unfold zlen in Hzs; simpl in Hzs; slia).
+    assert (Mid s1 pre seg rest1) as HM by (split; [exact HA1|split; [congruence|exact Hsne]]).
+    assert (length rest1 + 1 <= F)%nat as HF1.
+    { rewrite Hr, app_length in Hn. destruct seg; [congruence|simpl in Hn; slia]. }
+    assert ((pre ++ seg) ++ rest1 = pre ++ rest) as Heq0 by (rewrite Hr, <- app_assoc; reflexivity).
+    assert ((pre ++ seg) ++ rest1 <> []) as Hne1 by (rewrite Heq0; exact Hne).
+    rewrite Hr in H.
+    destruct (byte_before_seg seg rest1 Hsne) as (x & p & Hsegx & Hbb). rewrite Hbb in H.
+    assert (PV false (Some p) (pre ++ seg)) as HP1.
+    { right. split; [reflexivity|]. exists (pre ++ x), p. split; [rewrite Hsegx, app_assoc; reflexivity|reflexivity]. }
+    pattern (pre ++ rest ++ d). apply (conclude_eq _ (pre ++ seg) rest1 d pre rest Heq0). cbv beta.
+    rewrite stmt_iter_eq, Hnx. cbn [bind]. unfold iter_some.
+    destruct (N.eqb r 40) eqn:E40.
+    { (* ( *)
+      cbn [bind].
+      destruct (IH _ _ _ _ _ H rest1 (pre ++ seg) s1
+                   (if Z.of_nat depth =? 0 then pos s1 else opos) F eq_refl eq_refl HA1 HP1 Hne1 HF1)
+        as (s2 & HA2 & Hrun).
+      replace (Z.of_nat depth + 1) with (Z.of_nat (S depth)) by slia.
+      rewrite Hrun. exists s2. split; [exact HA2|reflexivity]. }
+    destruct (N.eqb r 41) eqn:E41.
+    { (* ) *)
+      destruct depth as [|dep']; [discriminate|].
+      replace (Z.of_nat (S dep') =? 0) with false by slia. cbn [bind].
+      replace (Z.of_nat (S dep') - 1) with (Z.of_nat dep') by slia.
+      destruct (IH _ _ _ _ _ H rest1 (pre ++ seg) s1 opos F eq_refl eq_refl HA1 HP1 Hne1 HF1)
+        as (s2 & HA2 & Hrun).
+      rewrite Hrun. exists s2. split; [exact HA2|reflexivity]. }
+    change (N.eqb r 39 || N.eqb r 34 || N.eqb r 96) with (is_quote r).
+    destruct (is_quote r) eqn:Eq.
+    { (* quoted string *)
+      destruct (qloop f r (BackslashEscapes o) (length rest1) (rest1 ++ fol)) as [[n2 l2]|] eqn:Eql; [|discriminate].
+      assert (seg = [r]) as Hsr by (apply Hasc; destruct (is_quote_cases r Eq) as [ -> | [ -> | -> ] ]; slia).
+      rewrite Hsr in *.
+      destruct (skipQuote_sim r Eq _ _ _ _ _ Eql rest1 pre s1 F eq_refl eq_refl HA1 ltac:(slia))
+        as (segq & segq' & rest2 & s2 & Hr2 & Hsq & Hn2 & Hl2 & Hrun & HA2).
+      rewrite Hrun. cbn [bind]. subst n2 l2.
+      pattern ((pre ++ [r]) ++ rest1 ++ d).
+      apply (conclude_eq _ ((pre ++ [r]) ++ segq) rest2 d (pre ++ [r]) rest1); [rewrite Hr2, <- app_assoc; reflexivity|].
+      cbv beta.
+      destruct (IH _ _ _ _ _ H rest2 ((pre ++ [r]) ++ segq) s2 opos F eq_refl eq_refl HA2)
+        as (s3 & HA3 & Hrun3).
+      - right. split; [reflexivity|]. exists ((pre ++ [r]) ++ segq'), r. split; [rewrite Hsq, app_assoc; reflexivity|reflexivity].
+      - rewrite <- app_assoc, <- Hr2. exact Hne1.
+      - rewrite Hr2, app_length in HF1. slia.
+      - rewrite Hrun3. exists s3. split; [exact HA3|reflexivity]. }
+    unfold iter_rest.
+    destruct (start && (length seg =? 1)%nat && has_prefix_ci ((seg ++ rest1) ++ fol) W_DELIMITER) eqn:Edc; [discriminate|].
+    rewrite (ck_delimcmd_at F s1 pre seg rest1 start prev _ _ _ HM HP Edc).
+    rewrite ck_go_skip by exact Hgo.
+    destruct ((depth =? 0)%nat && has_prefix ((seg ++ rest1) ++ fol) d) eqn:Edl; [discriminate|].
+    rewrite (ck_delim_at_skip s1 pre seg rest1 depth _ HM Edl).
+    destruct (MatchDollarQuote o && N.eqb r 36 && is_some (re_dollar_quote ((seg ++ rest1) ++ fol))) eqn:Edq.
+    { (* dollar-quoted string *)
+      apply andb_true_iff in Edq as [Edq1 Edq3]. apply andb_true_iff in Edq1 as [Edq1 Edq2].
+      apply N.eqb_eq in Edq2. subst r.
+      assert (seg = [36%N]) as Hsr by (apply Hasc; slia). rewrite Hsr in *.
+      destruct (re_dollar_quote (([36%N] ++ rest1) ++ fol)) as [m|] eqn:Erd; [|discriminate].
+      destruct (length ([36%N] ++ rest1) <? m)%nat eqn:Elm; [discriminate|].
+      destruct (dloop f (firstn m (([36%N] ++ rest1) ++ fol)) (length ([36%N] ++ rest1) - m)
+                      (skipn m (([36%N] ++ rest1) ++ fol))) as [[n2 l2]|] eqn:Edl2; [|discriminate].
+      rewrite (ck_dollar_at_hit F s1 pre rest1 _ _ _ HM Edq1) by (rewrite Erd; reflexivity).
+      destruct (skipDollarQuote_sim f m n2 l2 rest1 pre s1 F Erd Elm Edl2 HA1 ltac:(slia))
+        as (segq & segq' & rest2 & s2 & Hr2 & Hsq & Hn2 & Hl2 & Hrun & HA2).
+      rewrite Hrun. cbn [bind]. subst n2 l2.
+      pattern ((pre ++ [36%N]) ++ rest1 ++ d).
+      apply (conclude_eq _ (pre ++ segq) rest2 d (pre ++ [36%N]) rest1);
+        [rewrite <- !app_assoc; f_equal; symmetry; exact Hr2|].
+      cbv beta.
+      destruct (IH _ _ _ _ _ H rest2 (pre ++ segq) s2 opos F eq_refl eq_refl HA2)
+        as (s3 & HA3 & Hrun3).
+      - right. split; [reflexivity|]. exists (pre ++ segq'), 36%N. split; [rewrite Hsq, app_assoc; reflexivity|reflexivity].
+      - rewrite <- app_assoc, <- Hr2. destruct pre; discriminate.
+      - apply (f_equal (@length N)) in Hr2. rewrite app_length in Hr2. simpl in Hr2.
+        assert (1 <= length segq)%nat by (rewrite Hsq, app_length; simpl; slia). slia.
+      - rewrite Hrun3. exists s3. split; [exact HA3|reflexivity]. }
+    rewrite (ck_dollar_at_skip F s1 pre seg rest1 r _ _ _ HM Hasc Edq).
+    destruct (N.eqb r 35 && HashComments o) eqn:Eh.
+    { (* # comment *)
+      destruct start; [discriminate|].
+      destruct (cskip NL (length rest1) (rest1 ++ fol)) as [[n2 l2]|] eqn:Ecs; [|discriminate].
+      unfold ck_hash. rewrite Eh.
+      destruct (cskip_sim [35%N] NL _ _ _ _ Ecs rest1 (pre ++ seg) s1 eq_refl eq_refl HA1)
+        as (segq & segq' & rest2 & s2 & Hr2 & Hsq & Hn2 & Hl2 & Hrun & HA2).
+      { destruct HP as [(Hf & _)|(_ & pre' & p' & Hpre & _)]; [discriminate|].
+        rewrite Hpre, !zlen_app. pose proof (zlen_nonneg pre'). pose proof (zlen_nonneg seg).
+        change (zlen [p']) with 1. change (zlen [35%N]) with 1. slia. }
+      rewrite Hrun. cbn [bind]. subst n2 l2.
+      pattern ((pre ++ seg) ++ rest1 ++ d).
+      apply (conclude_eq _ ((pre ++ seg) ++ segq) rest2 d (pre ++ seg) rest1); [rewrite Hr2, <- app_assoc; reflexivity|].
+      cbv beta.
+      destruct (IH _ _ _ _ _ H rest2 ((pre ++ seg) ++ segq) s2 opos F eq_refl eq_refl HA2)
+        as (s3 & HA3 & Hrun3).
+      - right. split; [reflexivity|]. exists ((pre ++ seg) ++ segq'), 10%N. split; [rewrite Hsq, app_assoc; reflexivity|reflexivity].
+      - rewrite <- app_assoc, <- Hr2. exact Hne1.
+      - rewrite Hr2, app_length in HF1. slia.
+      - rewrite Hrun3. exists s3. split; [exact HA3|reflexivity]. }
+    rewrite (ck_hash_skip o s1 r _ _ _ Eh).
+    destruct (N.eqb r 45 && rune_is (Some (fst (decode_rune (rest1 ++ fol)))) 45) eqn:Eda.
+    { (* -- comment *)
+      destruct start; [discriminate|].
+      destruct (length rest1) as [|n1'] eqn:Eln1; [discriminate|].
+      destruct (cskip NL n1' (skipn 1 (rest1 ++ fol))) as [[n2 l2]|] eqn:Ecs; [|discriminate].
+      apply andb_true_iff in Eda as [Eda1 Eda2]. apply N.eqb_eq in Eda1. subst r.
+      rewrite (ck_dash_at_hit s1 pre seg rest1 _ _ _ HM Eda2).
+      destruct (decode_rune (rest1 ++ fol)) as [r2 wz2] eqn:D2. cbn [fst rune_is] in Eda2.
+      apply N.eqb_eq in Eda2. subst r2.
+      assert (wz2 = 1) as ->.
+      { assert (rest1 ++ fol <> []) as Hnn by (destruct rest1; discriminate).
+        destruct (decode_rune_spec _ _ _ D2 Hnn) as (_ & Ha & _). destruct (Ha ltac:(slia)) as [-> _]. reflexivity. }
+      destruct (step_at s1 (pre ++ seg) rest1 45%N 1 HA1 D2 ltac:(rewrite Eln1; reflexivity))
+        as (seg2 & rest1' & s1' & Hr' & Hls' & Hzs' & _ & Hsk' & Hn1' & Hnx' & _ & HA1' & Hasc').
+      rewrite Hnx'. cbn [bind snd]. change (Z.to_nat 1) with 1%nat in *. rewrite Hsk' in Ecs.
+      assert (n1' = length rest1') as Hn1e by (rewrite Eln1 in Hn1'; slia).
+      destruct (cskip_sim [45%N; 45%N] NL _ _ _ _ Ecs rest1' ((pre ++ seg) ++ seg2) s1' eq_refl Hn1e HA1')
+        as (segq & segq' & rest2 & s2 & Hr2 & Hsq & Hn2 & Hl2 & Hrun & HA2).
+      { destruct HP as [(Hf & _)|(_ & pre' & p' & Hpre & _)]; [discriminate|].
+        rewrite Hpre, !zlen_app. pose proof (zlen_nonneg pre'). unfold zlen in *. simpl. slia. }
+      rewrite Hrun. cbn [bind]. subst n2 l2.
+      pattern ((pre ++ seg) ++ rest1 ++ d).
+      apply (conclude_eq _ (((pre ++ seg) ++ seg2) ++ segq) rest2 d (pre ++ seg) rest1);
+        [rewrite Hr', Hr2, <- !app_assoc; reflexivity|].
+      cbv beta.
+      destruct (IH _ _ _ _ _ H rest2 (((pre ++ seg) ++ seg2) ++ segq) s2 opos F eq_refl eq_refl HA2)
+        as (s3 & HA3 & Hrun3).
+      - right. split; [reflexivity|]. exists (((pre ++ seg) ++ seg2) ++ segq'), 10%N.
+        split; [rewrite Hsq, app_assoc; reflexivity|reflexivity].
+      - rewrite <- !app_assoc. intros Hx. apply app_eq_nil in Hx as [_ Hx]. apply app_eq_nil in Hx as [Hx _]. exact (Hsne Hx).
+      - apply (f_equal (@length N)) in Hr', Hr2. rewrite app_length in Hr', Hr2. slia.
+      - rewrite Hrun3. exists s3. split; [exact HA3|reflexivity]. }
+    rewrite (ck_dash_at_skip s1 pre seg rest1 r _ _ _ HM Eda).
+    destruct (N.eqb r 47 && rune_is (Some (fst (decode_rune (rest1 ++ fol)))) 42) eqn:Esl.
+    { (* block comment *)
+      destruct start; [discriminate|].
+      destruct (length rest1) as [|n1'] eqn:Eln1; [discriminate|].
+      destruct (cskip [42%N; 47%N] n1' (skipn 1 (rest1 ++ fol))) as [[n2 l2]|] eqn:Ecs; [|discriminate].
+      apply andb_true_iff in Esl as [Esl1 Esl2]. apply N.eqb_eq in Esl1. subst r.
+      rewrite (ck_slash_at_hit s1 pre seg rest1 _ _ _ HM Esl2).
+      destruct (decode_rune (rest1 ++ fol)) as [r2 wz2] eqn:D2. cbn [fst rune_is] in Esl2.
+      apply N.eqb_eq in Esl2. subst r2.
+      assert (wz2 = 1) as ->.
+      { assert (rest1 ++ fol <> []) as Hnn by (destruct rest1; discriminate).
+        destruct (decode_rune_spec _ _ _ D2 Hnn) as (_ & Ha & _). destruct (Ha ltac:(slia)) as [-> _]. reflexivity. }
+      destruct (step_at s1 (pre ++ seg) rest1 42%N 1 HA1 D2 ltac:(rewrite Eln1; reflexivity))
+        as (seg2 & rest1' & s1' & Hr' & Hls' & Hzs' & _ & Hsk' & Hn1' & Hnx' & _ & HA1' & Hasc').
+      rewrite Hnx'. cbn [bind snd]. change (Z.to_nat 1) with 1%nat in *. rewrite Hsk' in Ecs.
+      assert (n1' = length rest1') as Hn1e by (rewrite Eln1 in Hn1'; slia).
+      destruct (cskip_sim [47%N; 42%N] [42%N; 47%N] _ _ _ _ Ecs rest1' ((pre ++ seg) ++ seg2) s1' eq_refl Hn1e HA1')
+        as (segq & segq' & rest2 & s2 & Hr2 & Hsq & Hn2 & Hl2 & Hrun & HA2).
+      { destruct HP as [(Hf & _)|(_ & pre' & p' & Hpre & _)]; [discriminate|].
+        rewrite Hpre, !zlen_app. pose proof (zlen_nonneg pre'). unfold zlen in *. simpl. slia. }
+      rewrite Hrun. cbn [bind]. subst n2 l2.
+      pattern ((pre ++ seg) ++ rest1 ++ d).
+      apply (conclude_eq _ (((pre ++ seg) ++ seg2) ++ segq) rest2 d (pre ++ seg) rest1);
+        [rewrite Hr', Hr2, <- !app_assoc; reflexivity|].
+      cbv beta.
+      destruct (IH _ _ _ _ _ H rest2 (((pre ++ seg) ++ seg2) ++ segq) s2 opos F eq_refl eq_refl HA2)
+        as (s3 & HA3 & Hrun3).
+      - right. split; [reflexivity|]. exists (((pre ++ seg) ++ seg2) ++ segq' ++ [42%N]), 47%N.
+        split; [rewrite Hsq, <- !app_assoc; reflexivity|reflexivity].
+      - rewrite <- !app_assoc. intros Hx. apply app_eq_nil in Hx as [_ Hx]. apply app_eq_nil in Hx as [Hx _]. exact (Hsne Hx).
+      - apply (f_equal (@length N)) in Hr', Hr2. rewrite app_length in Hr', Hr2. slia.
+      - rewrite Hrun3. exists s3. split; [exact HA3|reflexivity]. }
+    rewrite (ck_slash_at_skip s1 pre seg rest1 r _ _ _ HM Esl).
+    match type of H with (if ?c then _ else _) = _ => destruct c eqn:Ebg; [discriminate|] end.
+    rewrite ck_endterm_skip by (destruct HA1 as (_ & _ & _ & _ & Et & _); exact Et).
+    rewrite (ck_begins_at F s1 pre seg rest1 start prev _ _ _ HM HP Ebg).
+    cbn [bind].
+    destruct (IH _ _ _ _ _ H rest1 (pre ++ seg) s1 opos F eq_refl eq_refl HA1 HP1 Hne1 HF1)
+      as (s2 & HA2 & Hrun).
+    rewrite Hrun. exists s2. split; [exact HA2|reflexivity].
+Qed.
+
 End Sim.
+
+(** * Trimmed commands and [emit] *)
+Lemma trim_suffix_app_eq (c p : bytes) : trim_suffix (c ++ p) p = c.
+Proof.
+  unfold trim_suffix, has_suffix. rewrite app_length.
+  replace (length c + length p - length p)%nat with (length c) by lia.
+  rewrite skipn_app_l, bytes_eqb_refl, firstn_app_l.
+  replace (length p <=? length c + length p)%nat with true by lia. reflexivity.
+Qed.
+
+Lemma trim_space_fix c : trim_space c = c -> starts_space c = false /\ trim_right_space c = c.
+Proof.
+  intros H. unfold trim_space in H.
+  destruct (trim_left_decomp c) as (sp & H1 & _ & H3).
+  destruct (trim_right_decomp (trim_left_space c)) as (sp2 & H2 & _).
+  rewrite H in H2.
+  assert (sp = [] /\ sp2 = []) as [-> ->].
+  { pose proof (f_equal (@length N) H1) as L1. pose proof (f_equal (@length N) H2) as L2.
+    rewrite app_length in L1, L2. split; apply length_zero_iff_nil; lia. }
+  simpl in H1. rewrite <- H1 in *. split; [exact H3|exact H].
+Qed.
+
+Lemma starts_space_app_ascii c x t :
+  starts_space c = false -> c <> [] -> (x < 128)%N -> starts_space (c ++ x :: t) = false.
+Proof.
+  intros H Hne Hx. destruct c as [|a [|b [|c0 t']]]; [congruence| | |exact H]; cbn [app starts_space] in *.
+  - unfold sp1, sp2, sp3 in *. destruct t; lia.
+  - unfold sp1, sp2, sp3 in *. lia.
+Qed.
+
+Lemma trim_left_space_rev_59 x : trim_left_space_rev (59%N :: x) = 59%N :: x.
+Proof.
+  destruct x as [|b [|c0 t]]; cbn [trim_left_space_rev]; try reflexivity.
+  - replace (sp1 59) with false by reflexivity. replace (sp2 b 59) with false by (unfold sp2; lia). reflexivity.
+  - replace (sp1 59) with false by reflexivity. replace (sp2 b 59) with false by (unfold sp2; lia).
+    replace (sp3 c0 b 59) with false by (unfold sp3; lia). reflexivity.
+Qed.
+
+Lemma trim_space_semi c : trim_space c = c -> c <> [] -> trim_space (c ++ [59%N]) = c ++ [59%N].
+Proof.
+  intros H Hne. destruct (trim_space_fix c H) as [Hs _].
+  unfold trim_space. rewrite (trim_left_id (c ++ [59%N])) by (apply starts_space_app_ascii; auto; lia).
+  unfold trim_right_space. rewrite rev_app_distr. cbn [rev app].
+  rewrite trim_left_space_rev_59. cbn [rev]. rewrite rev_involutive. reflexivity.
+Qed.
+
+Lemma trimmed_inv cmd : trimmed cmd = true -> cmd <> [] /\ trim_space cmd = cmd.
+Proof.
+  unfold trimmed. destruct cmd as [|a c]; [discriminate|]. intros H. apply bytes_eqb_eq in H.
+  split; [discriminate|exact H].
+Qed.
+
+Lemma emit_text o d cmd : trimmed cmd = true ->
+  trim_space (if OmitDelimiter o || negb (bytes_eqb d delimiter) then trim_suffix (cmd ++ d) d else cmd ++ d)
+  = stmt_text o d cmd.
+Proof.
+  intros Ht. destruct (trimmed_inv cmd Ht) as [Hne Hts]. unfold stmt_text.
+  destruct (OmitDelimiter o || negb (bytes_eqb d delimiter)) eqn:E.
+  - rewrite trim_suffix_app_eq. exact Hts.
+  - apply orb_false_iff in E as [_ E]. apply negb_false_iff in E. apply bytes_eqb_eq in E. subst d.
+    apply trim_space_semi; assumption.
+Qed.
+
+(** * The gap before a command *)
+
+(** a delimiter that starts like a comment line must not contain a newline: otherwise a whole
+    comment line followed by more text can be read as the delimiter (["--\nx"] after the line
+    ["--\n"]), although the line alone does not start with it. *)
+Definition gap_delim_ok (d : bytes) : Prop := has_prefix d [45%N; 45%N] = true -> ~ In 10%N d.
+
+(** [Gap] with the premise the scanner needs: the line does not start with the delimiter whatever
+    follows it *)
+Inductive GapS (d : bytes) : bytes -> Prop :=
+| gaps_nil : GapS d []
+| gaps_nl g : GapS d g -> GapS d (10%N :: g)
+| gaps_comment body g :
+    ~ In 10%N body -> (forall t, has_prefix (([45%N; 45%N] ++ body ++ [10%N]) ++ t) d = false) ->
+    GapS d g -> GapS d ([45%N; 45%N] ++ body ++ [10%N] ++ g).
+
+Lemma Gap_GapS d g : gap_delim_ok d -> Gap d g -> GapS d g.
+Proof.
+  intros Hd. induction 1 as [|g HG IH|body g Hb Hp HG IH]; [constructor|constructor; exact IH|].
+  apply gaps_comment; [exact Hb| |exact IH].
+  intros t. set (line := [45%N; 45%N] ++ body ++ [10%N]) in *.
+  destruct (has_prefix (line ++ t) d) eqn:E; [|reflexivity]. exfalso.
+  destruct (Nat.le_gt_cases (length d) (length line)) as [Hle|Hgt].
+  - rewrite has_prefix_app_len in E by exact Hle. congruence.
+  - apply has_prefix_app in E as [r Hr].
+    assert (d = line ++ skipn (length line) d) as Hdl.
+    { rewrite <- (firstn_skipn (length line) d) at 1. f_equal.
+      apply (f_equal (firstn (length line))) in Hr. rewrite firstn_app_l in Hr.
+      rewrite firstn_app in Hr. replace (length line - length d)%nat with 0%nat in Hr by lia.
+      rewrite firstn_O, app_nil_r in Hr. symmetry. exact Hr. }
+    apply Hd.
+    + rewrite Hdl. reflexivity.
+    + rewrite Hdl. apply in_or_app. left. unfold line. cbn [app In]. right. right. apply in_or_app. right. left. reflexivity.
+Qed.
+
+Lemma next_ascii_at s a x t :
+  input s = a ++ x :: t -> pos s = zlen a -> (x < 128)%N -> next s = Ok (Some x, addPos (set_width s 1) 1).
+Proof.
+  intros I P Hx. unfold next. rewrite I, P, zlen_app, zlen_cons.
+  pose proof (zlen_nonneg a). pose proof (zlen_nonneg t).
+  replace (zlen a + (1 + zlen t) <=? zlen a) with false by lia.
+  rewrite slice_from_app by reflexivity. cbn [bind]. unfold decode_rune.
+  replace (x <? 128)%N with true by lia. reflexivity.
+Qed.
+
+Lemma index_of_nl body rest : ~ In 10%N body -> index_of (body ++ 10%N :: rest) NL = Some (length body).
+Proof.
+  induction body as [|a body IH]; intros H.
+  - reflexivity.
+  - cbn [app index_of has_prefix NL].
+    assert (a <> 10%N) as Ha by (intros ->; apply H; left; reflexivity).
+    replace (N.eqb a 10) with false by lia. cbn [andb].
+    change (index_of (body ++ 10%N :: rest) [10%N]) with (index_of (body ++ 10%N :: rest) NL).
+    rewrite IH by (intros Hin; apply H; right; exact Hin). reflexivity.
+Qed.
+
+Lemma gap_comment_step o nested d body Y s opos F :
+  GoCommand o = false -> ~ In 10%N body ->
+  has_prefix (([45%N; 45%N] ++ body ++ [10%N]) ++ Y) d = false ->
+  input s = ([45%N; 45%N] ++ body ++ [10%N]) ++ Y -> pos s = 0 -> delim s = d ->
+  exists s', stmt_iter o nested F s 0 opos = Ok (Continue s' 0 opos) /\
+    input s' = trim_left_space Y /\ pos s' = 0 /\ delim s' = d /\ endterm s' = endterm s /\
+    src s' = src s /\ total s' + zlen (input s') = total s + zlen (input s).
+Proof.
+  intros Hgo Hb Hp I P Dl.
+  set (line := [45%N; 45%N] ++ body ++ [10%N]) in *.
+  assert (input s = [] ++ 45%N :: (45%N :: body ++ [10%N]) ++ Y) as I0 by (rewrite I; reflexivity).
+  rewrite stmt_iter_eq, (next_ascii_at s [] 45%N _ I0 P ltac:(lia)). cbn [bind].
+  set (s1 := addPos (set_width s 1) 1).
+  assert (input s1 = input s) as I1 by reflexivity.
+  assert (pos s1 = 1) as P1 by (unfold s1; simpl; lia).
+  unfold iter_some. cbn [N.eqb Pos.eqb orb]. unfold iter_rest.
+  rewrite ck_delimcmd_skip by (intros _; rewrite I1, I; reflexivity).
+  rewrite ck_go_skip by exact Hgo.
+  rewrite ck_delim_skip.
+  2:{ intros _. exists (input s). split.
+      - rewrite I1. unfold s1. simpl. rewrite P. unfold slice_from.
+        pose proof (zlen_nonneg (input s)). cbn [Z.ltb Z.compare orb].
+        replace (zlen (input s) <? 0 + 1 - 1) with false by lia. reflexivity.
+      - unfold s1. simpl. rewrite Dl, I. exact Hp. }
+  rewrite ck_dollar_skip by (cbn [N.eqb Pos.eqb]; rewrite andb_false_r; discriminate).
+  rewrite ck_hash_skip by reflexivity.
+  assert (input s1 = [45%N] ++ 45%N :: (body ++ [10%N]) ++ Y) as I1' by (rewrite I1, I; unfold line; rewrite <- !app_assoc; reflexivity).
+  pose proof (next_ascii_at s1 [45%N] 45%N _ I1' P1 ltac:(lia)) as Hn2.
+  unfold ck_dash, pick. cbn [N.eqb Pos.eqb]. rewrite Hn2. cbn [bind fst snd rune_is N.eqb Pos.eqb andb].
+  set (s2 := addPos (set_width s1 1) 1).
+  assert (input s2 = [45%N; 45%N] ++ body ++ 10%N :: Y) as I2 by (unfold s2; simpl; rewrite I; unfold line; rewrite <- !app_assoc; reflexivity).
+  assert (pos s2 = 2) as P2 by (unfold s2, s1; simpl; lia).
+  unfold comment. rewrite I2, slice_from_app by (rewrite P2; reflexivity). cbn [bind].
+  rewrite index_of_nl by exact Hb.
+  replace (negb (pos s2 =? zlen [45%N; 45%N])) with false by (rewrite P2; reflexivity).
+  set (s3 := addPos s2 (Z.of_nat (length body) + zlen NL)).
+  assert (input s3 = line ++ Y) as I3.
+  { change (input s3) with (input s2). rewrite I2. unfold line. rewrite <- !app_assoc. reflexivity. }
+  assert (pos s3 = zlen line) as P3.
+  { change (pos s3) with (pos s2 + (Z.of_nat (length body) + zlen NL)). rewrite P2.
+    unfold line, zlen. rewrite !app_length. change (length NL) with 1%nat. cbn [length]. lia. }
+  assert (total s3 = total s + zlen line) as T3.
+  { change (total s3) with (total s + 1 + 1 + (Z.of_nat (length body) + zlen NL)).
+    unfold line, zlen. rewrite !app_length. change (length NL) with 1%nat. cbn [length]. lia. }
+  assert (delim s3 = d /\ endterm s3 = endterm s /\ src s3 = src s) as (D3 & E3 & S3) by (splits; auto).
+  rewrite I3. rewrite slice_to_app by exact P3. cbn [bind]. rewrite slice_from_app by exact P3. cbn [bind].
+  match goal with |- exists s', Ok (Continue (skipSpaces ?x) _ _) = _ /\ _ => set (s5 := x) end.
+  exists (skipSpaces s5). split; [reflexivity|].
+  assert (input s5 = Y /\ pos s5 = 0 /\ delim s5 = d /\ endterm s5 = endterm s /\ src s5 = src s /\
+          total s5 = total s + zlen line) as (I5 & P5 & D5 & E5 & S5 & T5).
+  { unfold s5. destruct (has_prefix Y NLNL || bytes_eqb NL NL && has_prefix Y NL); simpl;
+      (splits; auto). }
+  unfold skipSpaces. simpl. rewrite I5, T5, I, zlen_app. splits; auto. lia.
+Qed.
+
+Lemma gap_loop o nested d X : GoCommand o = false -> starts_space X = false ->
+  forall g, GapS d g -> forall s opos F,
+  input s = trim_left_space (g ++ X) -> pos s = 0 -> delim s = d -> (length g <= F)%nat ->
+  exists s0 F0, input s0 = X /\ pos s0 = 0 /\ delim s0 = d /\ endterm s0 = endterm s /\ src s0 = src s /\
+    total s0 + zlen X = total s + zlen (input s) /\ (F <= F0 + length g)%nat /\
+    stmt_loop o nested F s 0 opos = stmt_loop o nested F0 s0 0 opos.
+Proof.
+  intros Hgo HX. induction 1 as [|g HG IH|body g Hb Hp HG IH]; intros s opos F I P Dl HF.
+  - exists s, F. cbn [app] in I. rewrite (trim_left_id _ HX) in I. rewrite I. splits; auto. lia.
+  - cbn [app trim_left_space] in I. replace (sp1 10) with true in I by reflexivity.
+    simpl in HF. destruct (IH s opos F I P Dl ltac:(lia)) as (s0 & F0 & H).
+    exists s0, F0. destruct H as (H1 & H2 & H3 & H4 & H5 & H6 & H7 & H8). splits; auto. simpl. lia.
+  - assert (trim_left_space (([45%N; 45%N] ++ body ++ [10%N] ++ g) ++ X) =
+            ([45%N; 45%N] ++ body ++ [10%N]) ++ g ++ X) as E.
+    { rewrite trim_left_id; [rewrite <- !app_assoc; reflexivity|].
+      cbn [app starts_space].
+      match goal with |- context[match ?l with [] => _ | _ :: _ => _ end] => destruct l end; reflexivity. }
+    rewrite E in I.
+    destruct F as [|F]; [simpl in HF; lia|].
+    destruct (gap_comment_step o nested d body (g ++ X) s opos F Hgo Hb (Hp _) I P Dl)
+      as (s' & Hit & I' & P' & D' & E' & S' & T').
+    rewrite stmt_loop_S, Hit. cbn [bind].
+    destruct (IH s' opos F I' P' D') as (s0 & F0 & H).
+    { rewrite !app_length in HF. cbn [length] in HF. lia. }
+    exists s0, F0. destruct H as (H1 & H2 & H3 & H4 & H5 & H6 & H7 & H8).
+    splits; auto; try congruence; try lia.
+    rewrite !app_length. cbn [length]. lia.
+Qed.
+
+(** * Main theorems *)
+
+(** A closed command, after a gap, is read back as exactly one statement — whatever follows its
+    delimiter line ([tail]); the scanner stops right after the delimiter. *)
+Theorem stmt_gap_closed o d g cmd tail s f :
+  GoCommand o = false -> delim_ok d = true -> gap_delim_ok d ->
+  scan_closed o d cmd = true -> Gap d g ->
+  input s = g ++ cmd ++ d ++ [10%N] ++ tail -> pos s = 0 -> delim s = d -> endterm s = false ->
+  (length g + length cmd + length d + 4 <= f)%nat ->
+  exists s' cs,
+    stmt o f s = Ok (s', Some (mkStmt (total s + zlen g) (stmt_text o d cmd) cs)) /\
+    input s' = 10%N :: tail /\ pos s' = 0 /\ delim s' = d /\ endterm s' = false /\
+    total s' = total s + zlen g + zlen cmd + zlen d /\ src s' = src s /\ comments s' = [].
+Proof.
+  intros Hgo Hdok Hgd Hsc HG I P Dl Et Hf.
+  unfold scan_closed in Hsc. apply andb_true_iff in Hsc as [Htr Hcw].
+  destruct (trimmed_inv cmd Htr) as [Hne Hts]. destruct (trim_space_fix cmd Hts) as [Hss _].
+  destruct (delim_ok_inv d Hdok) as [Hasc (d0 & d' & Hd & _)].
+  set (X := cmd ++ d ++ [10%N] ++ tail) in *.
+  assert (starts_space X = false) as HX.
+  { unfold X. rewrite Hd. cbn [app]. apply starts_space_app_ascii; auto.
+    apply Hasc. rewrite Hd. left. reflexivity. }
+  destruct f as [|f']; [slia|].
+  change (stmt o (S f') s) with (stmt_loop o (stmt o f') f' (skipSpaces s) 0 0).
+  destruct (gap_loop o (stmt o f') d X Hgo HX g (Gap_GapS d g Hgd HG) (skipSpaces s) 0 f')
+    as (s0 & F0 & I0 & P0 & D0 & E0 & S0 & T0 & HF0 & Hloop).
+  { simpl. rewrite I. reflexivity. }
+  { exact P. }
+  { exact Dl. }
+  { slia. }
+  rewrite Hloop.
+  assert (total s0 = total s + zlen g) as T0'.
+  { simpl in T0. rewrite I, zlen_app in T0. slia. }
+  assert (At d tail (total s0) (src s) s0 [] (cmd ++ d ++ [10%N])) as HA0.
+  { unfold At. splits; auto.
+    - rewrite I0. unfold X. cbn [app]. rewrite <- !app_assoc. reflexivity.
+    - rewrite zlen_nil. slia.
+    - rewrite E0. exact Et. }
+  unfold follow in Hcw.
+  destruct (cw_sim o d tail (total s0) (src s) (stmt o f') Hgo Hdok _ _ _ _ _ _ Hcw
+              cmd [] s0 0 F0 eq_refl eq_refl HA0) as (s1 & HA1 & Hrun).
+  { left. auto. }
+  { exact Hne. }
+  { slia. }
+  change (Z.of_nat 0) with 0 in Hrun. rewrite Hrun. cbn [app] in *.
+  destruct HA1 as (I1 & P1 & T1 & D1 & E1 & S1).
+  unfold emit. rewrite I1, slice_from_app by exact P1. cbn [bind snd fst].
+  eexists. eexists. split; [|splits].
+  - rewrite D1, (emit_text o d cmd Htr).
+    replace (total s1 - zlen (cmd ++ d)) with (total s + zlen g) by slia. reflexivity.
+  - reflexivity.
+  - reflexivity.
+  - exact D1.
+  - exact E1.
+  - simpl. rewrite T1, zlen_app. slia.
+  - exact S1.
+  - reflexivity.
+Qed.
+
+(** A gap with nothing after it: end of file. *)
+Theorem stmt_gap_eof o d g s f :
+  GoCommand o = false -> delim_ok d = true -> gap_delim_ok d -> Gap d g ->
+  input s = g -> pos s = 0 -> delim s = d -> endterm s = false ->
+  (length g + 4 <= f)%nat ->
+  exists s', stmt o f s = Ok (s', None).
+Proof.
+  intros Hgo Hdok Hgd HG I P Dl Et Hf.
+  destruct f as [|f']; [lia|].
+  change (stmt o (S f') s) with (stmt_loop o (stmt o f') f' (skipSpaces s) 0 0).
+  destruct (gap_loop o (stmt o f') d [] Hgo eq_refl g (Gap_GapS d g Hgd HG) (skipSpaces s) 0 f')
+    as (s0 & F0 & I0 & P0 & D0 & E0 & S0 & T0 & HF0 & Hloop).
+  { simpl. rewrite I, app_nil_r. reflexivity. }
+  { exact P. }
+  { exact Dl. }
+  { lia. }
+  rewrite Hloop. destruct F0 as [|F0]; [lia|].
+  rewrite stmt_loop_S, stmt_iter_eq. unfold next. rewrite I0, P0.
+  change (zlen [] <=? 0) with true. cbn [bind Z.ltb Z.compare]. rewrite P0. cbn [Z.ltb Z.compare bind].
+  exists s0. reflexivity.
+Qed.
+
+(** * The whole file: [Scan]'s loop over a list of (gap, closed command) *)
+Lemma Gap_app d a b : Gap d a -> Gap d b -> Gap d (a ++ b).
+Proof.
+  induction 1 as [|g HG IH|body g Hb Hp HG IH]; intros HB; [exact HB|simpl; constructor; auto|].
+  replace (([45%N; 45%N] ++ body ++ [10%N] ++ g) ++ b) with ([45%N; 45%N] ++ body ++ [10%N] ++ (g ++ b))
+    by (rewrite <- !app_assoc; reflexivity).
+  constructor; auto.
+Qed.
+
+(** one (gap, command) of the file, as written: gap, command, delimiter, newline *)
+Definition seg_bytes (d : bytes) (gc : bytes * bytes) : bytes := fst gc ++ snd gc ++ d ++ [10%N].
+Definition segs_bytes (d : bytes) (segs : list (bytes * bytes)) : bytes := concat (map (seg_bytes d) segs).
+(** the offsets of the commands, the first segment starting at [off] *)
+Fixpoint seg_pos (d : bytes) (off : Z) (segs : list (bytes * bytes)) : list Z :=
+  match segs with
+  | [] => []
+  | gc :: r => (off + zlen (fst gc)) :: seg_pos d (off + zlen (seg_bytes d gc)) r
+  end.
+
+Lemma scan_loop_S o f s acc : scan_loop o (S f) s acc =
+    do r <- stmt o (S f) s;
+    match r with
+    | (_, None) => Ok (rev acc)
+    | (s1, Some st) => scan_loop o f s1 (st :: acc)
+    end.
+Proof. reflexivity. Qed.
+
+Lemma scan_loop_closed_gen o d gend :
+  GoCommand o = false -> delim_ok d = true -> gap_delim_ok d -> Gap d gend ->
+  forall segs, (forall gc, In gc segs -> Gap d (fst gc) /\ scan_closed o d (snd gc) = true) ->
+  forall pg s f acc, Gap d pg ->
+    input s = pg ++ segs_bytes d segs ++ gend -> pos s = 0 -> delim s = d -> endterm s = false ->
+    (length (input s) + 4 <= f)%nat ->
+  exists ss, scan_loop o f s acc = Ok (rev acc ++ ss) /\
+    map Text ss = map (fun gc => stmt_text o d (snd gc)) segs /\
+    map Pos ss = seg_pos d (total s + zlen pg) segs.
+Proof.
+  intros Hgo Hdok Hgd Hend. induction segs as [|[g c] r IH]; intros Hall pg s f acc Hpg I P Dl Et Hf.
+  - destruct f as [|f]; [lia|]. rewrite scan_loop_S.
+    destruct (stmt_gap_eof o d (pg ++ gend) s (S f) Hgo Hdok Hgd (Gap_app _ _ _ Hpg Hend)) as (s' & Hs); auto.
+    { rewrite I in Hf. exact Hf. }
+    rewrite Hs. cbn [bind]. exists []. rewrite app_nil_r. auto.
+  - destruct (Hall (g, c) (or_introl eq_refl)) as [Hg Hc]. cbn [fst snd] in Hg, Hc.
+    assert (c <> []) as Hcne.
+    { unfold scan_closed in Hc. apply andb_true_iff in Hc as [Hc _]. apply trimmed_inv in Hc as [Hc _]. exact Hc. }
+    assert (d <> []) as Hdne by (destruct (delim_ok_inv d Hdok) as [_ (d0 & d' & -> & _)]; discriminate).
+    set (tail := segs_bytes d r ++ gend).
+    assert (input s = (pg ++ g) ++ c ++ d ++ [10%N] ++ tail) as I'.
+    { rewrite I. unfold tail, segs_bytes. cbn [map concat]. unfold seg_bytes at 1. cbn [fst snd].
+      rewrite <- !app_assoc. reflexivity. }
+    destruct f as [|f]; [lia|]. rewrite scan_loop_S.
+    destruct (stmt_gap_closed o d (pg ++ g) c tail s (S f) Hgo Hdok Hgd Hc (Gap_app _ _ _ Hpg Hg) I' P Dl Et)
+      as (s' & cs & Hs & I1 & P1 & D1 & E1 & T1 & S1 & C1).
+    { rewrite I', !app_length in Hf. rewrite app_length. lia. }
+    rewrite Hs. cbn [bind].
+    destruct (IH (fun gc Hin => Hall gc (or_intror Hin)) [10%N] s' f
+                 (mkStmt (total s + zlen (pg ++ g)) (stmt_text o d c) cs :: acc)
+                 (gap_nl d [] (gap_nil d)) I1 P1 D1 E1) as (ss & Hrun & Htx & Hps).
+    { rewrite I1. rewrite I', !app_length in Hf. cbn [length] in *.
+      destruct c; [congruence|]. destruct d; [congruence|]. cbn [length] in Hf. lia. }
+    exists (mkStmt (total s + zlen (pg ++ g)) (stmt_text o d c) cs :: ss).
+    rewrite Hrun. cbn [rev map seg_pos fst snd Text Pos]. rewrite <- app_assoc. cbn [app].
+    splits; auto.
+    + rewrite Htx. reflexivity.
+    + rewrite Hps. f_equal; [rewrite zlen_app; lia|]. f_equal.
+      rewrite T1. unfold seg_bytes. cbn [fst snd]. rewrite !zlen_app. change (zlen [10%N]) with 1. lia.
+Qed.
+
+(** the loop of [Scan] on gap, command, delimiter line, ..., gap: one statement per command,
+    with the expected texts and offsets (the closing gap [gend] may be empty). *)
+Theorem scan_loop_closed o d segs gend s f acc :
+  GoCommand o = false -> delim_ok d = true -> gap_delim_ok d ->
+  (forall gc, In gc segs -> Gap d (fst gc) /\ scan_closed o d (snd gc) = true) -> Gap d gend ->
+  input s = segs_bytes d segs ++ gend -> pos s = 0 -> delim s = d -> endterm s = false ->
+  (length (input s) + 4 <= f)%nat ->
+  exists ss, scan_loop o f s acc = Ok (rev acc ++ ss) /\
+    map Text ss = map (fun gc => stmt_text o d (snd gc)) segs /\
+    map Pos ss = seg_pos d (total s) segs.
+Proof.
+  intros Hgo Hdok Hgd Hall Hend I P Dl Et Hf.
+  destruct (scan_loop_closed_gen o d gend Hgo Hdok Hgd Hend segs Hall [] s f acc (gap_nil d) I P Dl Et Hf)
+    as (ss & H1 & H2 & H3).
+  exists ss. rewrite zlen_nil, Z.add_0_r in H3. auto.
+Qed.
+
+(** [Scan] itself when the file has no delimiter directive: the delimiter is [;]. *)
+Corollary scan_closed_default o segs gend :
+  GoCommand o = false -> 
+  (forall gc, In gc segs -> Gap delimiter (fst gc) /\ scan_closed o delimiter (snd gc) = true) ->
+  Gap delimiter gend ->
+  directive_delimiter (segs_bytes delimiter segs ++ gend) = None ->
+  exists ss, scan o (segs_bytes delimiter segs ++ gend) = Ok ss /\
+    map Text ss = map (fun gc => stmt_text o delimiter (snd gc)) segs /\
+    map Pos ss = seg_pos delimiter 0 segs.
+Proof.
+  intros Hgo Hall Hend Hdir. unfold scan, Scan, init. rewrite Hdir. cbn [bind].
+  set (inp := segs_bytes delimiter segs ++ gend) in *.
+  destruct (scan_loop_closed o delimiter segs gend
+              (mkScanner inp inp 0 0 0 delimiter [] (endterm (new_scanner false))) (fuel_of inp) []
+              Hgo eq_refl) as (ss & H1 & H2 & H3); auto.
+  - intros _. simpl. intros [H|[]]. discriminate.
+  - simpl. unfold fuel_of. lia.
+  - exists ss. auto.
+Qed.
